@@ -56,7 +56,8 @@ def mono_key(m):
 
 class Canon:
     def __init__(self, log_rules=False, atom_rewrite=None, trig=True,
-                 assume_positive=True):
+                 assume_positive=True, trig_expand=False):
+        self.trig_expand = trig_expand
         self.log_rules = log_rules
         self.atom_rewrite = atom_rewrite
         self.trig = trig
@@ -369,6 +370,31 @@ class Canon:
                 a = self.rat(args[0])
                 if a.is_const():
                     return Rat({(): abs(a.const())} if a.const() else {})
+            if f in ('sin', 'cos') and len(args) == 1 and not t[3] and self.trig_expand:
+                a = self.rnorm(self.rat(args[0]))
+                if a.den == {(): ONE} and a.num:
+                    monos = sorted(a.num.items(), key=lambda mc: mono_key(mc[0]))
+                    if len(monos) > 1:
+                        u = Rat(dict([monos[0]]))
+                        v = Rat(dict(monos[1:]))
+                        tu, tv = self.to_term(u), self.to_term(v)
+
+                        def fn(name, x):
+                            return self.rat(intern(('call', name, (x,), ())))
+                        if f == 'sin':
+                            return self.radd(
+                                self.rmul(fn('sin', tu), fn('cos', tv)),
+                                self.rmul(fn('cos', tu), fn('sin', tv)))
+                        return self.radd(
+                            self.rmul(fn('cos', tu), fn('cos', tv)),
+                            self.rmul(fn('sin', tu), fn('sin', tv)), -ONE)
+                    (m, c), = monos
+                    if c < 0:
+                        pos = self.to_term(Rat({m: -c}))
+                        r = self.rat(intern(('call', f, (pos,), ())))
+                        return self.rscale(r, -ONE) if f == 'sin' else r
+                elif not a.num:
+                    return Rat({}) if f == 'sin' else Rat({(): ONE})
         if k == 'extref':
             f = fname(t[1])
             if f in ('pi', 'e', 'inf'):
